@@ -16,6 +16,7 @@ OP_TRAITS = {
     'fpdec::binops::checked_rem::CheckedRem': 'checked_rem',
     'fpdec::binops::div_rounded::DivRounded': 'div_rounded', 'fpdec::binops::mul_rounded::MulRounded': 'mul_rounded',
 }
+COMMUTATIVE = ('core::ops::arith::Add', 'fpdec::binops::checked_add_sub::CheckedAdd')
 ASSIGN_TRAITS = {
     'core::ops::arith::AddAssign': ('add_assign', 'core::ops::arith::Add', 'add'),
     'core::ops::arith::SubAssign': ('sub_assign', 'core::ops::arith::Sub', 'sub'),
@@ -124,6 +125,10 @@ def run_ops(rep, db, traits=None):
             continue
         exp_args = [expected_arg(i + 1, fn['locals'][i + 1]) for i in range(fn['arg_count'])]
         ok = sh['callee'] == base['id'] and sh['args'] == exp_args and sh['ret'] == 'returned'
+        if not ok and tr in COMMUTATIVE and base_args[0] == base_args[1] and len(exp_args) == 2:
+            # a + b and b + a are the same function (value, scale and failure condition of Appendix A.2 are symmetric)
+            sw = [('deref', ('param', 2)) if exp_args[1][0] == 'deref' else ('param', 2), ('deref', ('param', 1)) if exp_args[0][0] == 'deref' else ('param', 1)]
+            ok = sh['callee'] == base['id'] and sh['args'] == sw and sh['ret'] == 'returned'
         rep.ob('R-FWD', key, ok,
                'forwarder must call %s with %s and return its result; found callee %s args %s result %s' % (base['id'], exp_args, sh['callee'], sh['args'], sh['ret']),
                site=sh['site'])
@@ -158,3 +163,25 @@ def run_assign(rep, db, traits=None):
         rep.ob('R-FWD-ASSIGN', key, ok,
                '`x op= y` must be `*x = Op::op(*x, y)` for the same operand types; found callee %s<%s> args %s result %s' % (
                    sh['callee_unres'], sh['unres_args'], sh['args'], sh['ret']), site=sh['site'])
+
+
+def shape_multi(fn):
+    """forwarder chain allowing helper calls on the way (e.g. String::as_str): list of call descriptions in block order"""
+    live = mir.reachable_blocks(fn)
+    du = mir.DefUse(fn)
+    out = []
+    for bi in sorted(live):
+        b = fn['blocks'][bi]
+        t = b['term']
+        if isinstance(t, dict):
+            if 'switch' in t or 'assert' in t:
+                return None, 'has a branch'
+            if 'call' in t:
+                fid, path, gargs = mir.callee(t)
+                args = [mir.origin(fn, a, du) for a in t['args']]
+                dest = t['dest']
+                ret = 'returned' if (dest['local'] == 0 and not dest['proj']) else None
+                out.append({'callee': fid, 'path': path, 'args': args, 'ret': ret})
+    if not out:
+        return None, 'no call'
+    return out, None
